@@ -127,6 +127,28 @@ func (r *Repository) GetEntriesInTree(treeID Hash) ([]TreeEntry, error) {
 // GetAllFilesInTree returns all filepaths and the corresponding blob hashes in
 // the specified tree.
 func (r *Repository) GetAllFilesInTree(treeID Hash) (map[string]Hash, error) {
+	entries, err := r.getAllFileEntriesInTree(treeID)
+	if err != nil {
+		return nil, err
+	}
+
+	if entries == nil {
+		return nil, nil
+	}
+
+	files := make(map[string]Hash, len(entries))
+	for _, entry := range entries {
+		files[entry.Path] = entry.ID
+	}
+
+	return files, nil
+}
+
+// getAllFileEntriesInTree returns an entry for every file in the specified
+// tree, recursively. Unlike GetAllFilesInTree, each entry also carries the
+// file's mode, so that a tree can be rebuilt without turning executable files
+// and symbolic links into regular files.
+func (r *Repository) getAllFileEntriesInTree(treeID Hash) ([]TreeEntry, error) {
 	// From Git 2.36, we can use --format here. However, it appears a not
 	// insignificant number of developers are still on Git 2.34.1, a side effect
 	// of being on Ubuntu 22.04. 22.04 is still widely used in WSL2 environments.
@@ -143,21 +165,21 @@ func (r *Repository) GetAllFilesInTree(treeID Hash) (map[string]Hash, error) {
 		return nil, nil // alternatively, just check if treeID is empty tree?
 	}
 
-	entries := strings.Split(strings.TrimSuffix(string(stdOut), "\x00"), "\x00")
+	lines := strings.Split(strings.TrimSuffix(string(stdOut), "\x00"), "\x00")
 
-	files := map[string]Hash{}
-	for _, entry := range entries {
+	entries := make([]TreeEntry, 0, len(lines))
+	for _, line := range lines {
 		// Without --format, the output is in the following format:
 		// <mode> SP <type> SP <object> TAB <file>
 		// From: https://git-scm.com/docs/git-ls-tree/2.34.1#_output_format
 
 		// <file> may itself contain spaces and tabs
-		info, name, found := strings.Cut(entry, "\t")
+		info, name, found := strings.Cut(line, "\t")
 		fields := strings.Split(info, " ")
 		if !found || len(fields) != 3 {
-			return nil, fmt.Errorf("unexpected entry '%s' in tree '%s'", entry, treeID.String())
+			return nil, fmt.Errorf("unexpected entry '%s' in tree '%s'", line, treeID.String())
 		}
-		// fields[0] is <mode> -- discard
+		// fields[0] is <mode>
 		// fields[1] is <type> -- discard
 		// fields[2] is <object>, really the object ID
 
@@ -166,10 +188,10 @@ func (r *Repository) GetAllFilesInTree(treeID Hash) (map[string]Hash, error) {
 			return nil, fmt.Errorf("invalid Git ID '%s' for path '%s': %w", fields[2], name, err)
 		}
 
-		files[name] = hash
+		entries = append(entries, TreeEntry{Path: name, ID: hash, Kind: gitstore.KindBlob, Mode: fields[0]})
 	}
 
-	return files, nil
+	return entries, nil
 }
 
 // GetMergeTree computes the merge tree for the commits passed in. The tree is
@@ -232,7 +254,7 @@ func (r *Repository) CreateSubtreeFromUpstreamRepository(upstream *Repository, u
 		if err != nil {
 			return nil, err
 		}
-		currentFiles, err := r.GetAllFilesInTree(currentRefTree)
+		currentFiles, err := r.getAllFileEntriesInTree(currentRefTree)
 		if err != nil {
 			return nil, err
 		}
@@ -248,9 +270,10 @@ func (r *Repository) CreateSubtreeFromUpstreamRepository(upstream *Repository, u
 
 		// Create list of TreeEntry objects representing all blobs except those
 		// currently under localPath
-		for filePath, blobID := range currentFiles {
-			if !strings.HasPrefix(filePath, localPath) {
-				entries = append(entries, NewEntryBlob(filePath, blobID))
+		for _, file := range currentFiles {
+			if !strings.HasPrefix(file.Path, localPath) {
+				// the entry carries the file's mode
+				entries = append(entries, file)
 			}
 		}
 	}
@@ -277,12 +300,13 @@ func (r *Repository) CreateSubtreeFromUpstreamRepository(upstream *Repository, u
 		entries = append(entries, NewEntryTree(localPath, treeID))
 	} else {
 		// We have to create the intermediate tree for localPath
-		filesToCopy, err := upstream.GetAllFilesInTree(treeID)
+		filesToCopy, err := upstream.getAllFileEntriesInTree(treeID)
 		if err != nil {
 			return nil, err
 		}
 
-		for blobPath, blobID := range filesToCopy {
+		for _, file := range filesToCopy {
+			blobPath, blobID := file.Path, file.ID
 			// if blob already exists, we don't need to carry out expensive
 			// read/write
 			if !r.HasObject(blobID) {
@@ -300,7 +324,7 @@ func (r *Repository) CreateSubtreeFromUpstreamRepository(upstream *Repository, u
 			}
 
 			// add blob to entries, with the path including the localPath prefix
-			entries = append(entries, NewEntryBlob(path.Join(localPath, blobPath), blobID))
+			entries = append(entries, TreeEntry{Path: path.Join(localPath, blobPath), ID: blobID, Kind: gitstore.KindBlob, Mode: file.Mode})
 		}
 	}
 
@@ -412,6 +436,7 @@ func (t *TreeBuilder) populateTree(parent, fullPath string, entry TreeEntry) {
 			node = &entryBlob{
 				name:  path.Base(fullPath),
 				gitID: entry.ID,
+				mode:  entry.Mode,
 			}
 		}
 	} else {
@@ -456,22 +481,29 @@ func (t *TreeBuilder) writeTrees(parent string, tree *entryTree) (Hash, error) {
 	return t.writeTree(tree.entries)
 }
 
-// writeTree creates a tree in the repository for the specified entries. It
-// only supports a typical blob with permission 0o644 and a subtree. This is
-// because it is only intended for use with gittuf specific metadata and tests.
-// Generic tree creation is left to invocations of the Git binary by the user.
+// writeTree creates a tree in the repository for the specified entries. A blob
+// is written with permission 0o644 unless its entry carries another mode, as
+// entries read from an existing tree do. Generic tree creation is left to
+// invocations of the Git binary by the user.
 func (t *TreeBuilder) writeTree(entries []treeNode) (Hash, error) {
 	input := ""
 	for _, entry := range entries {
-		// this is very opinionated about the modes right now because the plan
-		// is to use it for gittuf metadata, which requires regular files and
-		// subdirectories
+		// gittuf metadata only requires regular files and subdirectories;
+		// other modes are only written for entries read from existing trees
 		switch entry := entry.(type) {
 		case *entryTree:
 			input += "040000 tree " + entry.gitID.String() + "\t" + entry.name
 		case *entryBlob:
-			// TODO: support entryBlob's permissions here
-			input += "100644 blob " + entry.gitID.String() + "\t" + entry.name
+			// a regular file unless the entry carries another mode
+			// (executable file, symbolic link, submodule)
+			mode, objType := "100644", "blob"
+			if entry.mode != "" {
+				mode = entry.mode
+			}
+			if mode == "160000" {
+				objType = "commit"
+			}
+			input += mode + " " + objType + " " + entry.gitID.String() + "\t" + entry.name
 		}
 		// entries are NUL terminated (-z) so names are taken verbatim
 		input += "\x00"
@@ -527,6 +559,7 @@ func NewEntryTree(name string, gitID Hash) TreeEntry {
 type entryBlob struct {
 	name  string
 	gitID Hash
+	mode  string
 }
 
 func (e *entryBlob) getName() string {
